@@ -647,6 +647,7 @@ def run(ctx):
     # D. complex impedances (implementation-only oracle)
     # ------------------------------------------------------------------
     complex_stream(ctx, RN, rng, 40 if quick else 400)
+    stress_stream(ctx, RN, rng, 12 if quick else 120)
 
 
 def kernel_case(K, n, Is, It, a32, r32, kreqs, kimpl, kmeta, tag):
@@ -810,6 +811,108 @@ def oracle_case(ctx, c, o, RN, rng):
 # --------------------------------------------------------------------------
 # complex impedances
 # --------------------------------------------------------------------------
+
+def exact_er(n, A, res):
+    adm = [[(1 / res[i][j]) if A[i][j] else Fr(0) for j in range(n)] for i in range(n)]
+    L = [[(sum(adm[i]) if i == j else Fr(0)) - adm[i][j] for j in range(1, n)]
+         for i in range(1, n)]
+    eye = [[Fr(int(i == j)) for j in range(n - 1)] for i in range(n - 1)]
+    G = fr_solve(L, eye)
+
+    def g(a, b):
+        return Fr(0) if a == 0 or b == 0 else G[a - 1][b - 1]
+    return [[g(a, a) + g(b, b) - g(a, b) - g(b, a) for b in range(n)] for a in range(n)]
+
+
+def stress_stream(ctx, RN, rng, count):
+    """oracle only.  (1) connected networks whose resistances span many orders of magnitude
+    (weak bridges, 1 ohm next to 1e8 ohm): effective resistance against the exact rational
+    solve to *relative* accuracy, Foster's sum; (2) histories in which the array handed to
+    update_resistances is the array the network already holds, edited in place (or the
+    caller's original array scaled in place): everything must follow the change."""
+    for rep_i in range(count):
+        n = rng.randrange(3, 7)
+        A = random_connected(n, rng, rng.choice([0.0, 0.3]))
+        mags = [Fr(10) ** e for e in (0, 0, 0, 1, 3, 5, 7, 8)]      # ratio <= 5e8: float64-safe
+        res = [[Fr(0)] * n for _ in range(n)]
+        for i in range(n):
+            for j in range(i):
+                if A[i][j]:
+                    res[i][j] = res[j][i] = rng.choice(mags) * rng.choice([1, 2, 5])
+        ex = exact_er(n, A, res)
+        rep = {"n": n, "adjacency": A, "resistances": [[str(v) for v in r] for r in res]}
+        ctx.case(("stress", enc_adj(A), str(res)), True,
+                 {"stress": "wide resistance range", "n": n} if rep_i == 0 else None)
+        ctx.count("stress:wide-range")
+        try:
+            net = quiet(RN, np.array([[float(v) for v in r] for r in res]), silence_level=3)
+            er = [[float(quiet(net.effective_resistance, a, b)) for b in range(n)] for a in range(n)]
+        except Exception as e:  # noqa
+            ctx.fail({"kind": "stress", "law": "exception"},
+                     f"ResNetwork with a wide resistance range raised {type(e).__name__}: {e}", rep)
+            continue
+        # float64 pinv: entries are accurate relative to the *largest* effective resistance
+        # (condition number of the Laplacian), small ones additionally to 1e-6 relative
+        top = max(float(v) for r in ex for v in r)
+        bad = [(a, b) for a in range(n) for b in range(n)
+               if abs(er[a][b] - float(ex[a][b])) > 1e-5 * top + 1e-6 * float(ex[a][b])]
+        if bad:
+            a, b = bad[0]
+            ctx.fail({"kind": "stress", "law": "effective_resistance=exact-solve"},
+                     f"effective_resistance({a},{b}) = {er[a][b]} on a network with a wide range of "
+                     f"resistances, the exact circuit solve gives {float(ex[a][b])}",
+                     dict(rep, pair=[a, b], observed=er[a][b], expected=str(ex[a][b])))
+            continue
+        fo = sum(er[i][j] / float(res[i][j]) for i in range(n) for j in range(i) if A[i][j])
+        if abs(fo - (n - 1)) > 1e-2 * n:
+            ctx.fail({"kind": "stress", "law": "foster"},
+                     f"Foster sum = {fo} on a wide-range network, expected {n - 1}", rep)
+    for rep_i in range(count):
+        n = rng.randrange(3, 7)
+        A = random_connected(n, rng, rng.choice([0.0, 0.3, 0.6]))
+        R = np.zeros((n, n))
+        for i in range(n):
+            for j in range(i):
+                if A[i][j]:
+                    R[i, j] = R[j, i] = rng.choice([0.5, 1.0, 2.0, 4.0, 8.0])
+        mode = rng.choice(["edit-held-array", "scale-caller-array"])
+        ctx.case(("alias", enc_adj(A), R.tobytes().hex(), mode), True,
+                 {"history": mode, "n": n} if rep_i == 0 else None)
+        ctx.count("stress:alias:" + mode)
+        try:
+            r = R.copy()
+            net = quiet(RN, r, silence_level=3)
+            quiet(net.diameter_effective_resistance)
+            quiet(net.average_effective_resistance)
+            if mode == "edit-held-array":
+                held = net.resistances
+                i, j = next((i, j) for i in range(n) for j in range(i) if A[i][j])
+                held[i, j] = held[j, i] = held[i, j] * 10 + 1
+                quiet(net.update_resistances, held)
+                cur = np.array(held, dtype=float)
+            else:
+                r *= 3
+                quiet(net.update_resistances, r)
+                cur = r.copy()
+            twin = quiet(RN, cur.copy(), silence_level=3)
+            obs = [[float(quiet(net.effective_resistance, a, b)) for b in range(n)] for a in range(n)]
+            exp = [[float(quiet(twin.effective_resistance, a, b)) for b in range(n)] for a in range(n)]
+            extra = [(float(quiet(getattr(net, m))), float(quiet(getattr(twin, m))))
+                     for m in ("diameter_effective_resistance", "average_effective_resistance")]
+            adm = (np.asarray(quiet(net.get_admittance), dtype=float),
+                   np.asarray(quiet(twin.get_admittance), dtype=float))
+        except Exception as e:  # noqa
+            ctx.count("stress:alias-raises:" + type(e).__name__)
+            continue
+        if not np.allclose(obs, exp, rtol=1e-7, atol=1e-9) or \
+                any(abs(a - b) > 1e-7 * max(1, abs(b)) for a, b in extra) or \
+                not np.allclose(adm[0], adm[1], rtol=1e-9):
+            ctx.fail({"kind": "stress", "law": "follows-update", "history": mode},
+                     f"after `{mode}` + update_resistances the network does not follow the new "
+                     f"resistances (effective resistance / diameter / admittance differ from a fresh object)",
+                     {"n": n, "adjacency": A, "resistances": R.tolist(), "history": mode,
+                      "observed": obs, "fresh": exp})
+
 
 def complex_stream(ctx, RN, rng, count):
     for _ in range(count):
